@@ -353,6 +353,15 @@ class Interp(object):
                 return [('raise', Opaque(type(ex).__name__), st)]
         if isinstance(b, Const) and isinstance(b.value, dict) and isinstance(k, (Sym, Opaque)):
             return [('val', Opaque('%s[%s]' % ('constdict', k.desc())), st)]
+        if isinstance(b, BytesV) and isinstance(k, Const) and isinstance(k.value, int) and k.value >= 0:
+            off = k.value
+            for p in b.parts:
+                if p[0] == 'lit':
+                    if off < len(p[1]):
+                        return [('val', Const(p[1][off]), st)]
+                    off -= len(p[1])
+                else:
+                    break
         kind = 'int' if (isinstance(b, (BytesV,)) or getattr(b, 'kind', None) == 'bytes') else None
         v = Opaque('%s[%s]' % (b.desc(), k.desc()), kind)
         if kind == 'int':
